@@ -1,8 +1,8 @@
 import Witverif.Proofs.AbiLift3
 import Witverif.Proofs.AbiDealloc3
 import Witverif.Proofs.AbiMem
-/-! C01, lifting from memory of memory-free types: the expression built by `read_from_memory`
-evaluates to `Spec.load` (including agreement on traps), for any memory. -/
+/-! C01, lifting from memory (all types, including strings, lists and maps): the expression built by
+`read_from_memory` evaluates to `Spec.load` (including agreement on traps), for any memory. -/
 namespace Witverif.Abi
 open Spec
 
@@ -12,6 +12,7 @@ def LoadSound (p : Nat) (c : Cfg) (t : Ty) : Prop :=
     ∀ ls, eval (env.withLets ls) m e = (Spec.load p m t (addr + off.at p)).map MV.v
 
 @[simp] theorem withLets_p (env : Env) (ls : List (String × List MV)) : (env.withLets ls).p = env.p := rfl
+@[simp] theorem withLets_frames (env : Env) (ls : List (String × List MV)) : (env.withLets ls).frames = env.frames := rfl
 
 theorem AddrStable.hereL {env : Env} {m : Mem} {a : Expr} {addr : Nat} (h : AddrStable env m a addr)
     (ls : List (String × List MV)) : eval (env.withLets ls) m a = some (.c ⟨ptrFT env.p, addr⟩) := by
@@ -44,5 +45,549 @@ theorem load_handle (p : Nat) (c : Cfg) (t : Ty) (o : Op)
   simp only [pure1, eval, evalList_cons, evalList_nil, hld, Option.bind_some, Option.map_some, hsem, hspec, loadSem]
   have : m.loadLE (addr + off.at env.p) 4 < 2 ^ 32 := mem_loadLE_lt m 4 _
   simp [Nat.mod_eq_of_lt this, Env.withLets]
+
+/-! ### iteration lemmas -/
+
+theorem mapM_map_opt {α β γ : Type} (g : α → β) (F : β → Option γ) : ∀ (l : List α),
+    (l.map g).mapM F = l.mapM (fun x => F (g x)) := by
+  intro l
+  induction l with
+  | nil => simp
+  | cons x xs ih => simp [List.mapM_cons, ih]
+
+theorem forRange_succ (n : Nat) (F : Nat → Option MV) :
+    forRange (n + 1) F = (F 0).bind fun x => (forRange n (fun i => F (i + 1))).map fun xs => x :: xs := by
+  unfold forRange
+  rw [List.range_succ_eq_map, List.mapM_cons, mapM_map_opt]
+  cases F 0 <;> simp
+  cases List.mapM (fun x => F (x + 1)) (List.range n) <;> simp
+
+theorem forRange_loadMany (f : Nat → Option Val) (sz : Nat) : ∀ (n : Nat) (F : Nat → Option MV) (a : Nat),
+    (∀ i, i < n → F i = (f (a + i * sz)).map MV.v) →
+    forRange n F = (loadMany f sz a n).map (·.map MV.v) := by
+  intro n
+  induction n with
+  | zero => intro F a _; simp [forRange, loadMany]
+  | succ n ih =>
+    intro F a h
+    have h0 := h 0 (by omega)
+    simp at h0
+    have hrest := ih (fun i => F (i + 1)) (a + sz) (by
+      intro i hi
+      rw [h (i + 1) (by omega)]
+      congr 2
+      rw [Nat.succ_mul]; omega)
+    rw [forRange_succ, h0, hrest]
+    simp only [loadMany]
+    cases f a <;> simp
+    cases loadMany f sz (a + sz) n <;> simp
+
+theorem listOf_map_v (vs : List Val) : listOf (vs.map MV.v) = some (.v (.list vs)) := by
+  simp [listOf, vals_map_v]
+
+theorem forRange_load (f : Nat → Option Val) (sz : Nat) (n : Nat) (F : Nat → Option MV) (a : Nat)
+    (h : ∀ i, i < n → F i = (f (a + i * sz)).map MV.v) :
+    (forRange n F).bind listOf = (loadMany f sz a n).map (fun vs => MV.v (.list vs)) := by
+  rw [forRange_loadMany f sz n F a h]
+  cases loadMany f sz a n <;> simp [listOf_map_v]
+
+theorem forRange_loadEntries (fk fv : Nat → Option Val) (vo sz : Nat) : ∀ (n : Nat) (F : Nat → Option MV) (a : Nat),
+    (∀ i, i < n → F i = (fk (a + i * sz)).bind fun x => (fv (a + i * sz + vo)).map fun y => MV.v (.record [x, y])) →
+    forRange n F = (loadManyEntries fk fv vo sz a n).map (·.map MV.v) := by
+  intro n
+  induction n with
+  | zero => intro F a _; simp [forRange, loadManyEntries]
+  | succ n ih =>
+    intro F a h
+    have h0 := h 0 (by omega)
+    simp at h0
+    have hrest := ih (fun i => F (i + 1)) (a + sz) (by
+      intro i hi
+      rw [h (i + 1) (by omega)]
+      have : a + (i + 1) * sz = a + sz + i * sz := by rw [Nat.succ_mul]; omega
+      rw [this])
+    rw [forRange_succ, h0, hrest]
+    simp only [loadManyEntries]
+    cases fk a <;> simp
+    cases fv (a + vo) <;> simp
+    cases loadManyEntries fk fv vo sz (a + sz) n <;> simp
+
+/-! ### pieces -/
+
+theorem eval_loadInt (env : Env) (m : Mem) (a : Expr) (addr : Nat) (r : IntRepr) (off : Off)
+    (h : eval env m a = some (.c ⟨ptrFT env.p, addr⟩)) :
+    ∃ ty, eval env m (loadInt r off a) = some (.c ⟨ty, m.loadLE (addr + off.at env.p) r.size⟩) := by
+  unfold loadInt
+  cases r <;> simp only [eval_ld_stable env m a addr _ off h, loadSem, IntRepr.size] <;> exact ⟨_, rfl⟩
+
+theorem loadCase_get (p : Nat) (m : Mem) : ∀ (cs : List (Option Ty)) (i : Nat) (c : Option Ty) (a : Nat),
+    cs[i]? = some c → Spec.loadCase p m cs i a = Spec.loadOpt p m c a
+  | [], i, c, a, h => by simp at h
+  | d :: ds, 0, c, a, h => by simp at h; subst h; simp [Spec.loadCase]
+  | d :: ds, i + 1, c, a, h => by simpa [Spec.loadCase] using loadCase_get p m ds i c a (by simpa using h)
+
+theorem loadArms_get (c : Cfg) (lvl : Nat) (a : Expr) (poff : Off) :
+    ∀ (cs : List (Option Ty)) (arms : List (List Expr)), loadArms c lvl cs a poff = .ok arms →
+    arms.length = cs.length ∧
+    ∀ (j : Nat) (cj : Option Ty), cs[j]? = some cj →
+      ∃ arm, arms[j]? = some arm ∧ loadArm c lvl cj a poff = .ok arm := by
+  intro cs
+  induction cs with
+  | nil =>
+    intro arms h
+    simp [loadArms, pure, Except.pure] at h
+    subst h
+    exact ⟨rfl, fun j cj hj => by simp at hj⟩
+  | cons o cs ih =>
+    intro arms h
+    simp only [loadArms, bind_ok] at h
+    obtain ⟨arm, harm, rest, hrest, hp'⟩ := h
+    simp [pure, Except.pure] at hp'
+    subst hp'
+    have ⟨hl, hg⟩ := ih rest hrest
+    refine ⟨by simp [hl], ?_⟩
+    intro j cj hj
+    cases j with
+    | zero => simp at hj; subst hj; exact ⟨arm, by simp, harm⟩
+    | succ j => simpa using hg j cj (by simpa using hj)
+
+theorem loadFields_length (p : Nat) (m : Mem) : ∀ (ts : List Ty) (a cur : Nat) (vs : List Val),
+    Spec.loadFields p m ts a cur = some vs → vs.length = ts.length
+  | [], a, cur, vs, h => by simp [Spec.loadFields] at h; subst h; rfl
+  | t :: ts, a, cur, vs, h => by
+      simp only [Spec.loadFields, Option.bind_eq_bind, Option.bind_eq_some_iff] at h
+      obtain ⟨v, _, ws, hws, hp'⟩ := h
+      simp [pure] at hp'
+      subst hp'
+      simp [loadFields_length p m ts _ _ ws hws]
+
+theorem loadMany_length (f : Nat → Option Val) (sz : Nat) : ∀ (n a : Nat) (vs : List Val),
+    loadMany f sz a n = some vs → vs.length = n
+  | 0, a, vs, h => by simp [loadMany] at h; subst h; rfl
+  | n + 1, a, vs, h => by
+      simp only [loadMany, Option.bind_eq_bind, Option.bind_eq_some_iff] at h
+      obtain ⟨v, _, ws, hws, hp'⟩ := h
+      simp [pure] at hp'
+      subst hp'
+      simp [loadMany_length f sz n _ ws hws]
+
+theorem evalList_map_range (env : Env) (m : Mem) (g : Nat → Expr) (h : Nat → MV)
+    (hg : ∀ i, eval env m (g i) = some (h i)) : ∀ (l : List Nat),
+    evalList env m (l.map g) = some (l.map h) := by
+  intro l
+  induction l with
+  | nil => simp
+  | cons x xs ih => simp [evalList_cons, hg, ih]
+
+theorem Off.bytes_at' (n p : Nat) : (Off.bytes n).at p = n := by
+  simp only [Off.bytes, Off.at]; split <;> rfl
+
+def ArmLoadSound (p : Nat) (c : Cfg) (o : Option Ty) : Prop :=
+  ∀ (lvl : Nat) (a : Expr) (off : Off) (env : Env) (m : Mem) (addr : Nat) (arm : List Expr),
+    env.p = p → env.frames.length = lvl + 1 → AddrStable env m a addr → loadArm c lvl o a off = .ok arm →
+    ∀ ls (f : Frame), evalList ((env.extend [f]).withLets ls) m arm
+      = (Spec.loadOpt p m o (addr + off.at p)).map optVals
+
+theorem armLoad_none (p : Nat) (c : Cfg) : ArmLoadSound p c none := by
+  intro lvl a off env m addr arm _ _ _ h ls f
+  simp [loadArm, pure, Except.pure] at h
+  subst h
+  simp [Spec.loadOpt, optVals]
+
+theorem armLoad_some (p : Nat) (c : Cfg) (t : Ty) (ih : LoadSound p c t) : ArmLoadSound p c (some t) := by
+  intro lvl a off env m addr arm hp hl hst h ls f
+  simp only [loadArm, bind_ok] at h
+  obtain ⟨r, hr, hp'⟩ := h
+  simp [pure, Except.pure] at hp'
+  subst hp'
+  have := ih (lvl + 1) a off (env.extend [f]) m addr r hp (by simp [Env.extend, hl]) (hst.extend [f]) hr ls
+  simp only [evalList_cons, evalList_nil, this, Spec.loadOpt]
+  cases Spec.load p m t (addr + off.at p) <;> simp [optVals]
+
+/-- a variant-like load: discriminant load selects the arm -/
+theorem variant_load_eval (p : Nat) (c : Cfg) (o : Op) (n : Nat)
+    (hop : ∀ pp mm bev (d : CVal), opSem pp mm bev o [.c d] =
+      if d.bits < n then ((bev d.bits {}).bind (variantOf d.bits)).map ([·]) else none)
+    (lvl : Nat) (a : Expr) (off poff : Off) (tag : IntRepr) (env : Env) (m : Mem) (addr : Nat)
+    (hp : env.p = p) (hl : env.frames.length = lvl + 1) (hst : AddrStable env m a addr)
+    (arms : List (List Expr)) (hlen : arms.length = n)
+    (res : Nat → Option (Option Val))
+    (harm : ∀ i arm, arms[i]? = some arm → ∀ ls, evalList ((env.extend [{}]).withLets ls) m arm = (res i).map optVals) :
+    ∀ ls, eval (env.withLets ls) m (.op o [loadInt tag off a] arms 0) =
+      (if m.loadLE (addr + off.at p) tag.size < n
+        then (res (m.loadLE (addr + off.at p) tag.size)).map (fun ov => Val.variant (m.loadLE (addr + off.at p) tag.size) ov)
+        else none).map MV.v := by
+  intro ls
+  subst hp
+  have ⟨ty, hd⟩ := eval_loadInt (env.withLets ls) m a addr tag off (hst.hereL ls)
+  simp only [withLets_p] at hd
+  rw [variant_lift_eval (env.withLets ls) m o n hop _ _ arms hlen hd
+    (res (m.loadLE (addr + off.at env.p) tag.size))]
+  · simp only
+    split <;> simp
+    cases res (m.loadLE (addr + off.at env.p) tag.size) <;> simp
+  · intro arm harm0
+    have := harm _ arm harm0 ls
+    have ht : List.take (lvl + 1) env.frames = env.frames := List.take_of_length_le (by omega)
+    simpa [withLets_frames, hl, Env.enter, Env.extend, Env.withLets, ht] using this
+
+theorem signed8_rt (v : Nat) : signed 8 (wrap 32 (signed 8 v)) = signed 8 v := by
+  simp only [signed, wrap, Nat.reducePow, Nat.reduceSub]
+  omega
+
+theorem signed16_rt (v : Nat) : signed 16 (wrap 32 (signed 16 v)) = signed 16 v := by
+  simp only [signed, wrap, Nat.reducePow, Nat.reduceSub]
+  omega
+
+theorem leaf_sem_bool (p : Nat) (m : Mem) (x : Nat) :
+    scalarSem .boolFromI32 (.c (loadSem p m .i32_8u x)) = (Spec.load p m .bool x).map MV.v := by
+  have := mem_loadLE_lt m 1 x
+  simp only [scalarSem, loadSem, Spec.load, Option.map_some]
+  rw [Nat.mod_eq_of_lt (by omega)]
+
+theorem leaf_sem_u (p : Nat) (m : Mem) (x : Nat) (s : ScalarOp) (k : LoadKind) (t : Ty) (n w : Nat)
+    (hs : ∀ c : CVal, scalarSem s (.c c) = some (.v (.int (c.bits % 2 ^ w))))
+    (hk : loadSem p m k x = ⟨(loadSem p m k x).ty, m.loadLE x n⟩) (hw : 256 ^ n ≤ 2 ^ w)
+    (ht : Spec.load p m t x = some (.int (m.loadLE x n))) :
+    scalarSem s (.c (loadSem p m k x)) = (Spec.load p m t x).map MV.v := by
+  have := mem_loadLE_lt m n x
+  rw [hs, ht, hk]
+  simp only [Option.map_some]
+  have h2 : ((m.loadLE x n : Nat) : Int) % 2 ^ w = (m.loadLE x n : Int) := by
+    apply Int.emod_eq_of_lt (by omega)
+    have : m.loadLE x n < 2 ^ w := by omega
+    exact_mod_cast this
+  rw [h2]
+
+set_option maxHeartbeats 400000 in
+mutual
+theorem load_sound (p : Nat) (hp : p = 4 ∨ p = 8) (c : Cfg) : ∀ (t : Ty), LoadSound p c t
+  | .bool => load_leaf p c _ .i32_8u .boolFromI32 (by intros; simp [load, pure, Except.pure]) (leaf_sem_bool p)
+  | .u8 => load_leaf p c _ .i32_8u .u8FromI32 (by intros; simp [load, pure, Except.pure])
+      (fun m x => leaf_sem_u p m x _ _ _ 1 8 (by intro c; simp [scalarSem]) (by simp [loadSem]) (by decide) (by simp [Spec.load]))
+  | .u16 => load_leaf p c _ .i32_16u .u16FromI32 (by intros; simp [load, pure, Except.pure])
+      (fun m x => leaf_sem_u p m x _ _ _ 2 16 (by intro c; simp [scalarSem]) (by simp [loadSem]) (by decide) (by simp [Spec.load]))
+  | .u32 => load_leaf p c _ .i32 .u32FromI32 (by intros; simp [load, pure, Except.pure])
+      (fun m x => leaf_sem_u p m x _ _ _ 4 32 (by intro c; simp [scalarSem]) (by simp [loadSem]) (by decide) (by simp [Spec.load]))
+  | .u64 => load_leaf p c _ .i64 .u64FromI64 (by intros; simp [load, pure, Except.pure])
+      (fun m x => leaf_sem_u p m x _ _ _ 8 64 (by intro c; simp [scalarSem]) (by simp [loadSem]) (by decide) (by simp [Spec.load]))
+  | .s8 => load_leaf p c _ .i32_8s .s8FromI32 (by intros; simp [load, pure, Except.pure])
+      (by intro m x; simp [scalarSem, loadSem, Spec.load, signed8_rt])
+  | .s16 => load_leaf p c _ .i32_16s .s16FromI32 (by intros; simp [load, pure, Except.pure])
+      (by intro m x; simp [scalarSem, loadSem, Spec.load, signed16_rt])
+  | .s32 => load_leaf p c _ .i32 .s32FromI32 (by intros; simp [load, pure, Except.pure])
+      (by intro m x; simp [scalarSem, loadSem, Spec.load])
+  | .s64 => load_leaf p c _ .i64 .s64FromI64 (by intros; simp [load, pure, Except.pure])
+      (by intro m x; simp [scalarSem, loadSem, Spec.load])
+  | .f32 => load_leaf p c _ .f32 .f32FromCoreF32 (by intros; simp [load, pure, Except.pure])
+      (by intro m x; simp [scalarSem, loadSem, Spec.load])
+  | .f64 => load_leaf p c _ .f64 .f64FromCoreF64 (by intros; simp [load, pure, Except.pure])
+      (by intro m x; simp [scalarSem, loadSem, Spec.load])
+  | .char => load_leaf p c _ .i32 .charFromI32 (by intros; simp [load, pure, Except.pure])
+      (by intro m x; simp only [scalarSem, loadSem, Spec.load]; split <;> simp_all)
+  | .errctx => load_handle p c _ .errLift (by intros; simp [load, pure, Except.pure])
+      (by intros; simp [opSem, pureSem]) (by intros; simp [Spec.load])
+  | .own => load_handle p c _ (.handleLift true) (by intros; simp [load, pure, Except.pure])
+      (by intros; simp [opSem, pureSem]) (by intros; simp [Spec.load])
+  | .borrow => load_handle p c _ (.handleLift false) (by intros; simp [load, pure, Except.pure])
+      (by intros; simp [opSem, pureSem]) (by intros; simp [Spec.load])
+  | .future _ => load_handle p c _ .futureLift (by intros; simp [load, pure, Except.pure])
+      (by intros; simp [opSem, pureSem]) (by intros; simp [Spec.load])
+  | .stream _ => load_handle p c _ .streamLift (by intros; simp [load, pure, Except.pure])
+      (by intros; simp [opSem, pureSem]) (by intros; simp [Spec.load])
+  | .string => by
+      intro lvl a off env m addr e hpe _ hst h ls
+      simp [load, pure, Except.pure] at h
+      subst h; subst hpe
+      have h1 := eval_ld_stable (env.withLets ls) m a addr .ptr off (hst.hereL ls)
+      have h2 := eval_ld_stable (env.withLets ls) m a addr .len (off + Off.ptrs 1) (hst.hereL ls)
+      simp only [withLets_p, Off.at_add, Off.ptrs_at env.p hp] at h1 h2
+      simp [pure1, eval, evalList_cons, h1, h2, opSem, pureSem, loadSem, Spec.load, Nat.add_assoc]
+  | .enum n => by
+      intro lvl a off env m addr e hpe _ hst h ls
+      simp [load, pure, Except.pure] at h
+      subst h; subst hpe
+      have ⟨ty, hd⟩ := eval_loadInt (env.withLets ls) m a addr (discriminant n) off (hst.hereL ls)
+      simp only [withLets_p] at hd
+      simp only [pure1, eval, evalList_cons, evalList_nil, hd, Option.bind_some, Option.map_some, opSem, pureSem, Spec.load]
+      split <;> simp
+  | .flags n => by
+      intro lvl a off env m addr e hpe _ hst h ls
+      subst hpe
+      simp only [load] at h
+      split at h <;> simp [pure, Except.pure] at h <;> subst h
+      · rename_i hr
+        have ⟨ty, hd⟩ := eval_loadInt (env.withLets ls) m a addr .u8 off (hst.hereL ls)
+        simp only [withLets_p] at hd
+        simp [pure1, eval, evalList_cons, hd, opSem, pureSem, cvals, MV.core?, Spec.load, hr, IntRepr.size]
+      · rename_i hr
+        have ⟨ty, hd⟩ := eval_loadInt (env.withLets ls) m a addr .u16 off (hst.hereL ls)
+        simp only [withLets_p] at hd
+        simp [pure1, eval, evalList_cons, hd, opSem, pureSem, cvals, MV.core?, Spec.load, hr, IntRepr.size]
+      · rename_i k hr
+        have hl := evalList_map_range (env.withLets ls) m (fun i => ld .i32 (off + Off.bytes (i * 4)) a)
+          (fun i => MV.c (loadSem env.p m .i32 (addr + (off + Off.bytes (i * 4)).at env.p)))
+          (fun i => by simpa using eval_ld_stable (env.withLets ls) m a addr .i32 _ (hst.hereL ls)) (List.range k)
+        rw [show (List.range k).map (fun i => MV.c (loadSem env.p m .i32 (addr + (off + Off.bytes (i * 4)).at env.p)))
+            = ((List.range k).map fun i => loadSem env.p m .i32 (addr + (off + Off.bytes (i * 4)).at env.p)).map MV.c by
+          simp [List.map_map, Function.comp_def]] at hl
+        simp only [pure1, eval, hl, Option.bind_some, opSem, pureSem, Spec.load, hr, cvals_map_c]
+        simp [loadSem, Off.at_add, Off.bytes_at', Function.comp_def, Nat.mul_comm, Nat.add_assoc]
+  | .list e => by
+      intro lvl a off env m addr ex hpe hl hst h ls
+      subst hpe
+      have h1 := eval_ld_stable (env.withLets ls) m a addr .ptr off (hst.hereL ls)
+      have h2 := eval_ld_stable (env.withLets ls) m a addr .len (off + Off.ptrs 1) (hst.hereL ls)
+      simp only [withLets_p, Off.at_add, Off.ptrs_at env.p hp] at h1 h2
+      simp only [load] at h
+      split at h
+      · simp [pure, Except.pure] at h
+        subst h
+        simp only [pure1, eval, evalList_cons, evalList_nil, h1, h2, Option.bind_some, Option.map_some, opSem, pureSem,
+          loadSem, Spec.load, Nat.add_assoc, withLets_p]
+        by_cases hal : (m.loadLE (addr + off.at env.p) env.p % alignment env.p e != 0) = true
+        · simp [hal]
+        · simp only [hal, Bool.false_eq_true, if_false]
+          cases loadMany _ _ _ _ <;> simp
+      · simp only [bind_ok] at h
+        obtain ⟨r, hr, hp'⟩ := h
+        simp [pure, Except.pure] at hp'
+        subst hp'
+        simp only [eval, evalList_cons, evalList_nil, h1, h2, Option.bind_some, Option.map_some, opSem, loadSem,
+          Spec.load, Nat.add_assoc, withLets_p]
+        by_cases hal : (m.loadLE (addr + off.at env.p) env.p % alignment env.p e != 0) = true
+        · simp [hal]
+        · simp only [hal, Bool.false_eq_true, if_false]
+          have := forRange_load (Spec.load env.p m e) (elemSize env.p e) (m.loadLE (addr + (off.at env.p + env.p)) env.p)
+            (fun i => (evalBlockAt (env.withLets ls) m [[r]] 0
+              { base := some (m.loadLE (addr + off.at env.p) env.p + i * elemSize env.p e) }).bind fun rs => rs[0]?)
+            (m.loadLE (addr + off.at env.p) env.p)
+            (by
+              intro i _
+              have hb := load_sound _ hp c e (lvl + 1) (.base (lvl + 1)) Off.zero
+                (env.extend [{ base := some (m.loadLE (addr + off.at env.p) env.p + i * elemSize env.p e) }]) m _ r rfl
+                (by simp [Env.extend, hl]) (stable_base env m lvl hl _ _ rfl) hr ls
+              have ht : List.take (lvl + 1) env.frames = env.frames := List.take_of_length_le (by omega)
+              simp only [evalBlockAt, evalList_cons, evalList_nil, withLets_frames, hl, Env.enter, ht]
+              simp only [Env.extend, Env.withLets, Off.zero_at, Nat.add_zero] at hb
+              simp only [Env.withLets, hb]
+              cases Spec.load env.p m e _ <;> simp)
+          rw [this]
+          cases loadMany _ _ _ _ <;> simp
+  | .map k v => by
+      intro lvl a off env m addr ex hpe hl hst h ls
+      subst hpe
+      have h1 := eval_ld_stable (env.withLets ls) m a addr .ptr off (hst.hereL ls)
+      have h2 := eval_ld_stable (env.withLets ls) m a addr .len (off + Off.ptrs 1) (hst.hereL ls)
+      simp only [withLets_p, Off.at_add, Off.ptrs_at env.p hp] at h1 h2
+      simp only [load, bind_ok] at h
+      obtain ⟨rk, hrk, rv, hrv, hp'⟩ := h
+      simp [pure, Except.pure] at hp'
+      subst hp'
+      simp only [eval, evalList_cons, evalList_nil, h1, h2, Option.bind_some, Option.map_some, opSem, loadSem,
+        Spec.load, Nat.add_assoc, withLets_p]
+      by_cases hal : (m.loadLE (addr + off.at env.p) env.p % alignment env.p (.tuple [k, v]) != 0) = true
+      · simp [hal]
+      · simp only [hal, Bool.false_eq_true, if_false]
+        have hvo : ((fieldOffs [k, v]).getD 1 Off.zero).at env.p = alignTo (elemSize env.p k) (alignment env.p v) := by
+          rcases hp with hp | hp <;> rw [hp] <;> simp [fieldOffs, fieldOffsets, Off.at, alignTo_zero]
+        have := forRange_loadEntries (Spec.load env.p m k) (Spec.load env.p m v)
+            (alignTo (elemSize env.p k) (alignment env.p v)) (elemSize env.p (.tuple [k, v]))
+            (m.loadLE (addr + (off.at env.p + env.p)) env.p)
+            (fun i => (evalBlockAt (env.withLets ls) m [[rk, rv]] 0
+              { base := some (m.loadLE (addr + off.at env.p) env.p + i * elemSize env.p (.tuple [k, v])) }).bind entryOf)
+            (m.loadLE (addr + off.at env.p) env.p)
+            (by
+              intro i _
+              have hbk := load_sound _ hp c k (lvl + 1) (.base (lvl + 1)) Off.zero
+                (env.extend [{ base := some (m.loadLE (addr + off.at env.p) env.p + i * elemSize env.p (.tuple [k, v])) }]) m _ rk rfl
+                (by simp [Env.extend, hl]) (stable_base env m lvl hl _ _ rfl) hrk ls
+              have hbv := load_sound _ hp c v (lvl + 1) (.base (lvl + 1)) _
+                (env.extend [{ base := some (m.loadLE (addr + off.at env.p) env.p + i * elemSize env.p (.tuple [k, v])) }]) m _ rv rfl
+                (by simp [Env.extend, hl]) (stable_base env m lvl hl _ _ rfl) hrv ls
+              have ht : List.take (lvl + 1) env.frames = env.frames := List.take_of_length_le (by omega)
+              simp only [evalBlockAt, evalList_cons, evalList_nil, withLets_frames, hl, Env.enter, ht]
+              simp only [Env.extend, Env.withLets, Off.zero_at, Nat.add_zero, hvo] at hbk hbv
+              simp only [Env.withLets, hbk, hbv]
+              cases Spec.load env.p m k _ <;> simp [entryOf]
+              cases Spec.load env.p m v _ <;> simp [entryOf])
+        rw [this]
+        cases loadManyEntries _ _ _ _ _ _ <;> simp [listOf_map_v]
+  | .record fs => by
+      intro lvl a off env m addr e hpe hl hst h ls
+      simp only [load, bind_ok] at h
+      obtain ⟨fields, hfields, hp'⟩ := h
+      simp [pure, Except.pure] at hp'
+      subst hp'
+      have hf := loadFields_sound p hp c fs lvl a off 0 0 env m addr fields hpe hl hst (by simpa [fieldOffs] using hfields) ls
+      simp only [pure1, eval, hf, Spec.load, curOf, ite_self]
+      cases hl' : Spec.loadFields p m fs (addr + off.at p) 0 with
+      | none => simp
+      | some vs =>
+        have hlen := loadFields_length p m fs _ _ vs hl'
+        simp [opSem, pureSem, vals_map_v, hlen]
+  | .tuple ts => by
+      intro lvl a off env m addr e hpe hl hst h ls
+      simp only [load, bind_ok] at h
+      obtain ⟨fields, hfields, hp'⟩ := h
+      simp [pure, Except.pure] at hp'
+      subst hp'
+      have hf := loadFields_sound p hp c ts lvl a off 0 0 env m addr fields hpe hl hst (by simpa [fieldOffs] using hfields) ls
+      simp only [pure1, eval, hf, Spec.load, curOf, ite_self]
+      cases hl' : Spec.loadFields p m ts (addr + off.at p) 0 with
+      | none => simp
+      | some vs =>
+        have hlen := loadFields_length p m ts _ _ vs hl'
+        simp [opSem, pureSem, vals_map_v, hlen]
+  | .flist e n => by
+      intro lvl a off env m addr ex hpe hl hst h ls
+      subst hpe
+      simp only [load, bind_ok] at h
+      obtain ⟨r, hr, hp'⟩ := h
+      simp [pure, Except.pure] at hp'
+      subst hp'
+      simp only [eval, evalList_cons, evalList_nil, hst.hereL ls, Option.bind_some, Option.map_some, opSem, Spec.load]
+      have := forRange_load (Spec.load env.p m e) (elemSize env.p e) n
+        (fun i => (evalBlockAt (env.withLets ls) m [[r]] 0
+          { base := some (addr + i * elemSize env.p e) }).bind fun rs => rs[0]?)
+        (addr + off.at env.p)
+        (by
+          intro i _
+          have hb := load_sound _ hp c e (lvl + 1) (.base (lvl + 1)) off
+            (env.extend [{ base := some (addr + i * elemSize env.p e) }]) m _ r rfl
+            (by simp [Env.extend, hl]) (stable_base env m lvl hl _ _ rfl) hr ls
+          have ht : List.take (lvl + 1) env.frames = env.frames := List.take_of_length_le (by omega)
+          simp only [evalBlockAt, evalList_cons, evalList_nil, withLets_frames, hl, Env.enter, ht]
+          simp only [Env.extend, Env.withLets] at hb
+          simp only [Env.withLets, hb]
+          have : addr + i * elemSize env.p e + off.at env.p = addr + off.at env.p + i * elemSize env.p e := by omega
+          rw [this]
+          cases Spec.load env.p m e _ <;> simp)
+      simp only [withLets_p]
+      rw [this]
+      cases loadMany _ _ _ _ <;> simp
+  | .variant cs => by
+      intro lvl a off env m addr e hpe hl hst h ls
+      simp only [load, bind_ok] at h
+      obtain ⟨arms, harms, hp'⟩ := h
+      simp [pure, Except.pure] at hp'
+      subst hp'
+      have ⟨hal, hag⟩ := loadArms_get c lvl a _ cs arms harms
+      rw [variant_load_eval p c (.variantLift cs.length) cs.length (by intros; simp [opSem]) lvl a off
+        (off + payloadOff (discriminant cs.length) cs) (discriminant cs.length) env m addr hpe hl hst arms hal
+        (fun i => Spec.loadCase p m cs i (addr + off.at p + payloadOffset p (discriminant cs.length) cs))
+        (by
+          intro i arm0 harm0 ls'
+          have hlt : i < cs.length := by have := (List.getElem?_eq_some_iff.mp harm0).1; omega
+          have hci : cs[i]? = some (cs[i]'hlt) := by simp [hlt]
+          have ⟨arm, harm, hla⟩ := hag i _ hci
+          have harm' : arm0 = arm := by rw [harm0] at harm; exact Option.some.inj harm
+          subst harm'
+          rw [loadCase_get p m cs i _ _ hci]
+          have := loadArms_sound p hp c cs i (cs[i]'hlt) hci lvl a _ env m addr arm0 hpe hl hst hla ls' {}
+          simpa [Off.at_add, payloadOff_at p hp, Nat.add_assoc] using this) ls]
+      simp only [Spec.load]
+  | .option t => by
+      intro lvl a off env m addr e hpe hl hst h ls
+      simp only [load, bind_ok] at h
+      obtain ⟨r, hr, hp'⟩ := h
+      simp [pure, Except.pure] at hp'
+      subst hp'
+      rw [variant_load_eval p c .optionLift 2 (by intros; simp [opSem]) lvl a off
+        (off + payloadOff .u8 [none, some t]) .u8 env m addr hpe hl hst [[], [r]] rfl
+        (fun i => Spec.loadCase p m [none, some t] i (addr + off.at p + payloadOffset p .u8 [none, some t]))
+        (by
+          intro i arm0 harm0 ls'
+          rcases i with _ | _ | i
+          · simp at harm0; subst harm0; simp [Spec.loadCase, Spec.loadOpt, optVals]
+          · simp at harm0; subst harm0
+            have := armLoad_some p c t (load_sound p hp c t) lvl a (off + payloadOff .u8 [none, some t]) env m addr [r]
+              hpe hl hst (by simp [loadArm, hr, pure, Except.pure, bind, Except.bind]) ls' {}
+            simpa [Spec.loadCase, Off.at_add, payloadOff_at p hp, Nat.add_assoc] using this
+          · simp at harm0) ls]
+      simp only [Spec.load]
+      have key : ∀ x : Nat, (if x < 2 then
+            (Spec.loadCase p m [none, some t] x (addr + off.at p + payloadOffset p .u8 [none, some t])).map
+              (fun ov => Val.variant x ov) else none)
+          = (match x with
+            | 0 => some (.variant 0 none)
+            | 1 => (Spec.load p m t (addr + off.at p + payloadOffset p .u8 [none, some t])).map fun v => .variant 1 (some v)
+            | _ => none) := by
+        intro x
+        match x with
+        | 0 => simp [Spec.loadCase, Spec.loadOpt]
+        | 1 => simp [Spec.loadCase, Spec.loadOpt]; cases Spec.load p m t _ <;> simp
+        | x + 2 => simp; intro h; omega
+      exact congrArg _ (key _)
+  | .result ok err => by
+      intro lvl a off env m addr e hpe hl hst h ls
+      simp only [load, bind_ok] at h
+      obtain ⟨a0, ha0, a1, ha1, hp'⟩ := h
+      simp [pure, Except.pure] at hp'
+      subst hp'
+      rw [variant_load_eval p c .resultLift 2 (by intros; simp [opSem]) lvl a off
+        (off + payloadOff .u8 [ok, err]) .u8 env m addr hpe hl hst [a0, a1] rfl
+        (fun i => Spec.loadCase p m [ok, err] i (addr + off.at p + payloadOffset p .u8 [ok, err]))
+        (by
+          intro i arm0 harm0 ls'
+          rcases i with _ | _ | i
+          · simp at harm0; subst harm0
+            have := loadArm_sound p hp c ok lvl a (off + payloadOff .u8 [ok, err]) env m addr a0 hpe hl hst ha0 ls' {}
+            simpa [Spec.loadCase, Off.at_add, payloadOff_at p hp, Nat.add_assoc] using this
+          · simp at harm0; subst harm0
+            have := loadArm_sound p hp c err lvl a (off + payloadOff .u8 [ok, err]) env m addr a1 hpe hl hst ha1 ls' {}
+            simpa [Spec.loadCase, Off.at_add, payloadOff_at p hp, Nat.add_assoc] using this
+          · simp at harm0) ls]
+      simp only [Spec.load]
+      have key : ∀ x : Nat, (if x < 2 then
+            (Spec.loadCase p m [ok, err] x (addr + off.at p + payloadOffset p .u8 [ok, err])).map
+              (fun ov => Val.variant x ov) else none)
+          = (match x with
+            | 0 => (Spec.loadOpt p m ok (addr + off.at p + payloadOffset p .u8 [ok, err])).map (.variant 0)
+            | 1 => (Spec.loadOpt p m err (addr + off.at p + payloadOffset p .u8 [ok, err])).map (.variant 1)
+            | _ => none) := by
+        intro x
+        match x with
+        | 0 => simp [Spec.loadCase]
+        | 1 => simp [Spec.loadCase]
+        | x + 2 => simp; intro h; omega
+      exact congrArg _ (key _)
+theorem loadFields_sound (p : Nat) (hp : p = 4 ∨ p = 8) (c : Cfg) : ∀ (ts : List Ty) (lvl : Nat) (a : Expr) (off : Off)
+    (c4 c8 : Nat) (env : Env) (m : Mem) (addr : Nat) (fields : List Expr),
+    env.p = p → env.frames.length = lvl + 1 → AddrStable env m a addr →
+    loadFields c lvl ts (List.zipWith Off.mk (fieldOffsets 4 c4 ts) (fieldOffsets 8 c8 ts)) a off = .ok fields →
+    ∀ ls, evalList (env.withLets ls) m fields
+      = (Spec.loadFields p m ts (addr + off.at p) (curOf p c4 c8)).map (·.map MV.v)
+  | [], lvl, a, off, c4, c8, env, m, addr, fields, _, _, _, h, ls => by
+      simp [loadFields, pure, Except.pure] at h
+      subst h
+      simp [Spec.loadFields]
+  | t :: ts, lvl, a, off, c4, c8, env, m, addr, fields, hpe, hl, hst, h, ls => by
+      simp only [fieldOffsets, List.zipWith_cons_cons, loadFields, bind_ok] at h
+      obtain ⟨r, hr, rs, hrs, hp'⟩ := h
+      simp [pure, Except.pure] at hp'
+      subst hp'
+      have h1 := load_sound p hp c t lvl a _ env m addr r hpe hl hst hr ls
+      have h2 := loadFields_sound p hp c ts lvl a off _ _ env m addr rs hpe hl hst hrs ls
+      simp only [evalList_cons, h1, h2, Spec.loadFields]
+      have e1 : addr + (off + Off.mk (alignTo c4 (alignment 4 t)) (alignTo c8 (alignment 8 t))).at p
+          = addr + off.at p + alignTo (curOf p c4 c8) (alignment p t) := by
+        rcases hp with rfl | rfl <;> simp [curOf, Off.at_add, Off.at, Nat.add_assoc]
+      have e2 : curOf p (alignTo c4 (alignment 4 t) + elemSize 4 t) (alignTo c8 (alignment 8 t) + elemSize 8 t)
+          = alignTo (curOf p c4 c8) (alignment p t) + elemSize p t := by
+        rcases hp with rfl | rfl <;> simp [curOf]
+      rw [e1, e2]
+      cases Spec.load p m t _ <;> simp
+      cases Spec.loadFields p m ts _ _ <;> simp
+theorem loadArms_sound (p : Nat) (hp : p = 4 ∨ p = 8) (c : Cfg) : ∀ (cs : List (Option Ty))
+    (i : Nat) (ci : Option Ty), cs[i]? = some ci → ArmLoadSound p c ci
+  | [], i, ci, h => by simp at h
+  | o :: cs, 0, ci, h => by
+      simp at h; subst h; exact loadArm_sound p hp c o
+  | o :: cs, i + 1, ci, h => loadArms_sound p hp c cs i ci (by simpa using h)
+theorem loadArm_sound (p : Nat) (hp : p = 4 ∨ p = 8) (c : Cfg) : ∀ (o : Option Ty), ArmLoadSound p c o
+  | none => armLoad_none p c
+  | some t => armLoad_some p c t (load_sound p hp c t)
+end
 
 end Witverif.Abi
